@@ -112,7 +112,8 @@ def gen_tree(rng, pl, tier="quick", layout=None, allow_single=True, min_files=1,
     layout = layout or rng.choice(layouts)
     pool = [n for n in NAME_POOL if n.isascii()] if ascii_names else NAME_POOL
     dpool = [n for n in DIR_POOL if n.isascii()] if ascii_names else DIR_POOL
-    name = rng.choice(["T", "payload", "my torrent", "dir.d", "x", "Ünï" if not ascii_names else "U", "a"])
+    name = rng.choice(["T", "payload", "my torrent", "dir.d", "x", "Ünï" if not ascii_names else "U", "a",
+                       "...And Justice", "..notes", "x.torrent", " lead and trail "])
     cs = rng.randrange(1 << 30)
     files, dirs = [], []
     if layout == "single":
